@@ -313,6 +313,65 @@ func (c *relCtx) c06(t *expr.Expr, ci, di int, p partsJSON, info map[string]inte
 	c.emit(group{Rel: t.Op, El: el, R: r, Info: info})
 }
 
+// unknownKey names the top-level key of the "absent" world that holds the value a configuration uses as
+// unknown value.
+var unknownKey = map[string]string{"unk-str": "u_str", "unk-empty": "u_empty", "unk-int": "u_int", "unk-nil": "u_nil", "unk-list": "u_list",
+	"unk-map": "u_map", "unk-bool": "u_bool", "unk-f64": "u_f64"}
+
+// c05: what an absent key means. class is how the specification classifies the selector of the tree's root
+// (no unknown value): ok, absent (key absent from a map), nf (absent but not from a map), err.
+func (c *relCtx) c05(t *expr.Expr, ci, di int, class string, info map[string]interface{}) {
+	if t.T != "match" && t.T != "coll" {
+		return
+	}
+	cfg := c.cfgs[ci]
+	st := expr.Style{}
+	r, text := c.obs(t, st, ci, di)
+	if r == "" {
+		return
+	}
+	info["expr"], info["class"] = text, class
+	hasUnknown := cfg.Unknown.K != "none"
+	switch {
+	case !hasUnknown && class == "absent" && t.T == "match":
+		c.emit(group{Rel: "absent", Op: t.Op, R: r, Info: info})
+	case !hasUnknown && class == "absent" && t.T == "coll":
+		want := "F"
+		if t.Op == "all" {
+			want = "T"
+		}
+		c.emit(group{Rel: "same", Obs: []string{r, want}, Info: info})
+	case !hasUnknown && class == "nf":
+		c.emit(group{Rel: "same", Obs: []string{r, "E"}, Info: info})
+	case hasUnknown && (class == "absent" || class == "nf"):
+		// exactly as if the selector had resolved to the unknown value: name a key that holds it
+		uk, ok := unknownKey[cfg.Name]
+		if !ok {
+			return
+		}
+		if t.T == "coll" && (cfg.Unknown.K == "list" || cfg.Unknown.K == "map") {
+			// the elements of an unknown collection are reached through the alias path, which is absent again and
+			// therefore reads as the whole unknown value: not comparable with iterating a present collection
+			c.skip["quantifier over an unknown collection"]++
+			return
+		}
+		u := *t
+		u.Sel = &expr.Sel{Ty: "bexpr", Path: []string{uk}}
+		x, tx := c.obs(&u, st, 0, di)
+		if x != "" {
+			info["as_if"] = tx
+			c.emit(group{Rel: "same", Obs: []string{r, x}, Info: info})
+		}
+	case hasUnknown && class == "ok" && t.T == "match":
+		// selectors that resolve are unaffected by the unknown value
+		x, _ := c.obs(t, st, 0, di)
+		if x != "" {
+			info["law"] = "unknown value is a no-op when the selector resolves"
+			c.emit(group{Rel: "same", Obs: []string{r, x}, Info: info})
+		}
+	}
+}
+
 func selectors(e *expr.Expr, f func(s *expr.Sel)) {
 	switch e.T {
 	case "match":
@@ -467,6 +526,7 @@ func cmdRelate(args []string) error {
 		var c struct {
 			E *refTree      `json:"e"`
 			P [][]partsJSON `json:"p"`
+			K [][]string    `json:"k"`
 		}
 		if err := json.Unmarshal(sc.Bytes(), &c); err != nil {
 			return fmt.Errorf("bad case line: %v", err)
@@ -490,6 +550,10 @@ func cmdRelate(args []string) error {
 					}
 				case "c07":
 					ctx.c07(tree, ci, di, info)
+				case "c05":
+					if len(c.K) > ci && len(c.K[ci]) > di {
+						ctx.c05(tree, ci, di, c.K[ci][di], info)
+					}
 				case "c14":
 					ctx.c14(tree, ci, di, info)
 				case "c08":
